@@ -336,14 +336,10 @@ def translate(events: List[tuple], gens: List[Gen], in_order: bool):
             return "w%d" % wk[(gi, tname)]
         return "?"
 
-    aborted = False
     for e in events:
         tname, op = e[0], e[1]
         if op == "abort":
-            aborted = True
-            continue
-        if aborted and tname == "main":
-            continue
+            break  # what follows is the harness tearing the node down from inside an unfinished next()
         if op == "gen":
             cur_gen = e[2]
             continue
@@ -717,8 +713,9 @@ def _kt_one(ctx: Ctx, case) -> Optional[Dict[str, Any]]:
             "overlap": r.max_inside > 1 or bool(stale)}
 
 
-def run_kt(ctx: Ctx, n_quick: int = 200, n_thorough: int = 6000):
+def run_kt(ctx: Ctx, n_quick: int = 700, n_thorough: int = 8000):
     """K-T leg: every event trace of the real threads must be accepted by the Lean model."""
+    _freeze_heap()  # in the parent, so that the forked workers inherit the loaded (and frozen) torch heap
     n = ctx.n(n_quick, n_thorough)
     rng = ctx.sub_rng("kt_pm")
     cases = [gen_case(rng) for _ in range(n)]
@@ -991,13 +988,41 @@ def _ko_kill(ctx: Ctx, case):
     return None
 
 
+def witness_cases():
+    """The two `decide`-proved stuck states of the model (TDV.PM.cfgA / cfgB), as cases for the real code."""
+    a = {"N": 1, "mc": None, "f": 1, "in_order": True, "method": "thread", "items": [], "term": "error", "fail": [],
+         "hist": ["next", "next"], "sched": {"seed": 1, "adv": False, "starve": None}, "kill": None}
+    # worker 0's third switch point is the one inside map_fn: it dies holding item 0
+    b = {"N": 1, "mc": None, "f": 0, "in_order": True, "method": "process", "items": [5], "term": "stop", "fail": [],
+         "hist": ["next", "next"], "sched": {"seed": 1, "adv": False, "starve": None}, "kill": {"worker": 0, "at": 3}}
+    return a, b
+
+
+def replay_witnesses(ctx: Ctx):
+    a, b = witness_cases()
+    ra = run_case(a, op_budget=30.0)
+    if ra.hang is not None and ("e", "src") in ra.obs:
+        _classify_hang(ctx, a, ra, "stream")
+    else:
+        ctx.note(f"model witness TDV.PM.hang_after_source_error_forever does not reproduce on the real code: {ra.obs}")
+    ctx.case("ko_pm_witness", a, True)
+    rb = run_case(b, op_budget=30.0)
+    if rb.hang is not None and rb.killed:
+        _classify_hang(ctx, b, rb, "kill")
+    else:
+        ctx.note(f"model witness TDV.PM.hang_after_worker_death_forever does not reproduce on the real code: {rb.obs} killed={rb.killed}")
+    ctx.case("ko_pm_witness", b, True)
+
+
 def run_ko(ctx: Ctx, scale: float = 1.0):
     """K-O legs: C04 outputs vs reference, C06 resume at every position, C11 extra next() / hangs, C12 held <= max at every
     switch point, C17 threads released, C11-b process worker killed at enumerated switch points."""
+    _freeze_heap()
     rng = ctx.sub_rng("ko_pm")
+    replay_witnesses(ctx)
     # stream cases, several schedules each
     stream = []
-    for _ in range(int(ctx.n(50, 1500) * scale)):
+    for _ in range(int(ctx.n(220, 2000) * scale)):
         c = gen_case(rng, allow_reset=False)
         total = len(c["items"]) + 1
         c["hist"] = ["next"] * (total + 2)
@@ -1008,7 +1033,7 @@ def run_ko(ctx: Ctx, scale: float = 1.0):
     ctx.pmap(_ko_stream, stream)
     # resume at every position
     jobs = []
-    for _ in range(int(ctx.n(24, 500) * scale)):
+    for _ in range(int(ctx.n(90, 800) * scale)):
         c = gen_case(rng, allow_reset=False)
         c["in_order"] = True
         c["fail"] = []
@@ -1021,7 +1046,7 @@ def run_ko(ctx: Ctx, scale: float = 1.0):
     ctx.pmap(_ko_resume, jobs)
     # lifecycles
     life = []
-    for _ in range(int(ctx.n(30, 600) * scale)):
+    for _ in range(int(ctx.n(140, 1000) * scale)):
         c = gen_case(rng, allow_reset=False)
         total = len(c["items"]) + 1
         k = rng.randrange(0, total + 1)
@@ -1032,7 +1057,7 @@ def run_ko(ctx: Ctx, scale: float = 1.0):
         life.append(c)
     ctx.pmap(_ko_lifecycle, life)
     # process workers killed at every switch point
-    kills = gen_kill_jobs(rng, int(ctx.n(4, 60) * scale) or 1, ctx.n(14, 40))
+    kills = gen_kill_jobs(rng, int(ctx.n(14, 80) * scale) or 1, ctx.n(20, 40))
     ctx.pmap(_ko_kill, kills)
 
 
